@@ -319,3 +319,52 @@ def maybe_init(body, tracked):
                     IN[tb] |= out_state
                     changed = True
     return IN, OUT
+
+
+# ---------------------------------------------------------------------------------------------
+# writes to fields of self
+# ---------------------------------------------------------------------------------------------
+
+def field_writes(bi):
+    """(block, place term, value term, sp) for every assignment through a projection whose root is a
+    parameter (i.e. a write into `*self` / `this.<field>`)."""
+    cached = getattr(bi, "_field_writes", None)
+    if cached is not None:
+        return cached
+    out = []
+    body = bi.body
+    for b in sorted(body.reachable):
+        if body.is_cleanup(b):
+            continue
+        for st in body.stmts(b):
+            if st["k"] != "assign" or not st["lhs"]["p"]:
+                continue
+            pt = bi.T.of_place(st["lhs"])
+            root = pt
+            while root[0] in ("field", "index", "variant"):
+                root = root[1]
+            if root[0] == "param":
+                out.append((b, pt, bi.T.of_rvalue(st["rv"], 0), st.get("sp", "")))
+    bi._field_writes = out
+    return out
+
+
+def self_field(name):
+    return ("field", ("param", 1), name)
+
+
+def writes_to(bi, name):
+    return [w for w in field_writes(bi) if w[1] == self_field(name)]
+
+
+def increments(bi):
+    """field writes of the form f := f (+|-) c  ->  (block, field term, delta, sp)"""
+    out = []
+    for b, pt, v, sp in field_writes(bi):
+        vv = v[1] if v[0] == "field" and v[2] == 0 else v
+        if vv[0] == "binop" and vv[2] == pt and vv[3][0] == "const":
+            if vv[1].startswith("Add"):
+                out.append((b, pt, vv[3][1], sp))
+            elif vv[1].startswith("Sub"):
+                out.append((b, pt, -vv[3][1], sp))
+    return out
